@@ -23,13 +23,28 @@ package json
 //@   loop 1 invariant[T] forall(k, old(p.r.pos), p.r.pos, isJSONWS(p.r.buf[k]))
 //@   loop 1 decreases len(p.r.buf) - p.r.pos
 
+//@ pred litTrue(b, p) := b[p] == 't' && b[p+1] == 'r' && b[p+2] == 'u' && b[p+3] == 'e'
+//@ pred litFalse(b, p) := b[p] == 'f' && b[p+1] == 'a' && b[p+2] == 'l' && b[p+3] == 's' && b[p+4] == 'e'
+//@ pred litNull(b, p) := b[p] == 'n' && b[p+1] == 'u' && b[p+2] == 'l' && b[p+3] == 'l'
 //@ func Parser.consumeLiteralToken
+//@   ensures[F,C10] @literal: p.r.pos == old(p.r.pos) + ite(litTrue(p.r.buf, old(p.r.pos)) || litNull(p.r.buf, old(p.r.pos)), 4, ite(litFalse(p.r.buf, old(p.r.pos)), 5, 0)) && (result <==> p.r.pos > old(p.r.pos))
 //@   preserves[S] p != nil && p.r != nil && bufInv(p.r) && p.r.pos >= old(p.r.pos)
 //@   ensures[S]  !result ==> p.r.pos == old(p.r.pos)
 //@   ensures[S]  result ==> p.r.pos >= old(p.r.pos)+4
 //@   ensures[F]  result ==> old(p.r.buf[p.r.pos]) == 't' || old(p.r.buf[p.r.pos]) == 'f' || old(p.r.buf[p.r.pos]) == 'n'
 
+// RFC 8259 number starting at p:  -? (0 | [1-9][0-9]*) (. [0-9]+)? ((e|E) (+|-)? [0-9]+)?   (jsonNumEnd == p: none)
+//@ pred jDig(c) := '0' <= c && c <= '9'
+//@ pred jS(b, p) := p + ite(b[p] == '-', 1, 0)
+//@ pred jI(b, p) := ite(b[jS(b, p)] == '0', jS(b, p) + 1, ite('1' <= b[jS(b, p)] && b[jS(b, p)] <= '9', digitEnd(b, jS(b, p)), p))
+//@ pred jF(b, p) := ite(b[jI(b, p)] == '.' && jDig(b[jI(b, p)+1]), digitEnd(b, jI(b, p)+1), jI(b, p))
+//@ pred jT(b, p) := jF(b, p) + 1 + ite(b[jF(b, p)+1] == '+' || b[jF(b, p)+1] == '-', 1, 0)
+//@ pred jsonNumEnd(b, p) := ite(jI(b, p) == p, p, ite((b[jF(b, p)] == 'e' || b[jF(b, p)] == 'E') && jDig(b[jT(b, p)]), digitEnd(b, jT(b, p)), jF(b, p)))
 //@ func Parser.consumeNumberToken
+//@   ensures[F,C10] @number: p.r.pos == jsonNumEnd(p.r.buf, old(p.r.pos)) && (result <==> p.r.pos > old(p.r.pos))
+//@   loop 1 invariant[F] '1' <= p.r.buf[jS(p.r.buf, old(p.r.pos))] && p.r.buf[jS(p.r.buf, old(p.r.pos))] <= '9' && jS(p.r.buf, old(p.r.pos)) < p.r.pos && forall(k, jS(p.r.buf, old(p.r.pos)), p.r.pos, jDig(p.r.buf[k]))
+//@   loop 2 invariant[F] jI(p.r.buf, old(p.r.pos)) > old(p.r.pos) && p.r.buf[jI(p.r.buf, old(p.r.pos))] == '.' && jI(p.r.buf, old(p.r.pos)) + 1 <= p.r.pos && jDig(p.r.buf[jI(p.r.buf, old(p.r.pos))+1]) && forall(k, jI(p.r.buf, old(p.r.pos))+1, p.r.pos, jDig(p.r.buf[k]))
+//@   loop 3 invariant[F] jI(p.r.buf, old(p.r.pos)) > old(p.r.pos) && (p.r.buf[jF(p.r.buf, old(p.r.pos))] == 'e' || p.r.buf[jF(p.r.buf, old(p.r.pos))] == 'E') && jT(p.r.buf, old(p.r.pos)) <= p.r.pos && jDig(p.r.buf[jT(p.r.buf, old(p.r.pos))]) && forall(k, jT(p.r.buf, old(p.r.pos)), p.r.pos, jDig(p.r.buf[k]))
 //@   preserves[S] p != nil && p.r != nil && inputInv(p.r) && p.r.pos >= old(p.r.pos)
 //@   ensures[S]  !result ==> p.r.pos == old(p.r.pos)
 //@   ensures[S]  result ==> p.r.pos > old(p.r.pos)
@@ -37,7 +52,17 @@ package json
 //@   loop * invariant p.r.pos > old(p.r.pos)
 //@   loop * decreases len(p.r.buf) - p.r.pos
 
+// bsPar(s, lo, hi): parity of the run of backslashes that ends at hi-1 (0 if s[hi-1] is not a backslash): a quote at hi
+// closes the string iff it is 0
+//@ fold bsPar(s, k, acc) init 0 := ite(s[k] == '\\', 1 - acc, 0)
+//@ pred jsClose(b, lo, j) := b[j] == '"' && bsPar(b, lo, j) == 0
 //@ func Parser.consumeStringToken
+//@   requires[F] p.r.buf[p.r.pos] == '"' && p.r.start <= p.r.pos
+// the string ends at the first quote preceded by an even number of backslashes, and contains no NUL
+//@   ensures[F,C10] @string-end: result ==> jsClose(p.r.buf, old(p.r.pos)+1, p.r.pos-1) && forall(j, old(p.r.pos)+1, p.r.pos-1, !jsClose(p.r.buf, old(p.r.pos)+1, j) && p.r.buf[j] != 0)
+//@   ensures[F,C10] @string-open: !result ==> forall(j, old(p.r.pos)+1, p.r.pos, !jsClose(p.r.buf, old(p.r.pos)+1, j) && p.r.buf[j] != 0)
+//@   loop 1 invariant[F] forall(j, old(p.r.pos)+1, p.r.pos, !jsClose(p.r.buf, old(p.r.pos)+1, j) && p.r.buf[j] != 0)
+//@   loop 2 invariant[F] c == '"' && p.r.buf[p.r.pos] == '"' && i + p.r.start + 1 >= old(p.r.pos) + 1 && bsPar(p.r.buf, old(p.r.pos)+1, p.r.pos) == ite(escaped, 1 - bsPar(p.r.buf, old(p.r.pos)+1, i + p.r.start + 1), bsPar(p.r.buf, old(p.r.pos)+1, i + p.r.start + 1))
 //@   preserves[S] p != nil && p.r != nil && inputInv(p.r) && p.r.pos >= old(p.r.pos)
 //@   requires[S] p.r.buf[p.r.pos] != 0
 //@   ensures[S]  p.r.pos > old(p.r.pos)
